@@ -23,6 +23,8 @@ Inductive c15case :=
 | IntSliceRT (signed : bool) (w : N) (zs : list Z) (impl_str : str) (impl : outcome (list Z))
 (* strconv.Quote then strconv.Unquote; pr = the printable non-ASCII runes of the case *)
 | QuoteRT (pr : list rune) (s : str) (impl_q : str) (impl_u : outcome str)
+(* the same on an arbitrary byte string (invalid UTF-8 included), through the UTF-8 front end *)
+| QuoteRTB (pr : list rune) (bs : list N) (impl_q : str) (impl_u : outcome str)
 | UnquoteRaw (s : str) (impl : outcome str)
 | SliceRT (pr : list rune) (l : list str) (impl_str : str) (impl : outcome (list str))
 | SetRT (pr : list rune) (l : list str) (impl_str : str) (impl : outcome (list str))
@@ -194,6 +196,11 @@ Definition check (c : c15case) : N :=
       let isp := mk_print pr in
       let mq := quote isp s in
       verdict (out_eqb str_eqb iu (Ok s)) (str_eqb iq mq && out_eqb str_eqb iu (unquote mq)) 0
+  | QuoteRTB pr bs iq iu =>
+      let isp := mk_print pr in
+      let s := utf8_decode bs in
+      let mq := quote isp s in
+      verdict (out_eqb str_eqb iu (Ok s)) (str_eqb iq mq && out_eqb str_eqb iu (omap renorm (unquote mq))) 0
   | UnquoteRaw s impl =>
       let model := unquote s in
       if out_eqb str_eqb impl (omap renorm model) then 0 else if is_panic impl then 3 else 1
